@@ -80,7 +80,7 @@ REQUIRED_COUNTERS = [
     "checkpoint_roundtrips",
     "masked_decisions",
 ]
-CASE_TIMEOUT_S = 300
+CASE_TIMEOUT_S = 900  # the longest case costs ~2 cpu-s; the machine is shared (load averages of several hundred seen)
 
 EPS32 = float(np.finfo(np.float32).eps)
 ALGOS = ["NeuralUCB", "NeuralTS"]
@@ -185,7 +185,7 @@ def cases(tier, seed):
         drift = bool(rng.random() < 0.35)
         n_dec = int(rng.integers(lo, hi + 1))
         if i % long_every == 0:
-            n_dec, drift = 200, True
+            n_dec, drift = (100 if tier == "quick" else 200), True
         if obs != "vector":
             n_dec = min(n_dec, 40)
         mk(algo, obs, lamb, gamma, _ops_random(rng, n_dec, drift))
@@ -194,7 +194,7 @@ def cases(tier, seed):
 
 # ------------------------------------------------------------------ shadow state + wrappers
 class _Shadow:
-    __slots__ = ("agent", "A", "n", "inits", "adopted_alt")
+    __slots__ = ("agent", "A", "n", "inits", "adopted_alt", "snap", "lost")
 
     def __init__(self, agent):
         self.agent = agent
@@ -202,6 +202,8 @@ class _Shadow:
         self.n = 0
         self.inits = 0
         self.adopted_alt = False
+        self.snap = None
+        self.lost = False  # the monitor missed a decision: no inverse verdicts until the next (re)initialisation
 
 
 def _shadow(agent) -> _Shadow:
@@ -223,6 +225,7 @@ def _on_init(agent, rec, why):
         n = int(agent.sigma_inv.shape[0])
         sh.A = np.zeros((n, n), dtype=np.float64)
         sh.n = 0
+        sh.lost = False
         sh.inits += 1
         rec.hit("init_events")
         rec.hit("init_events:" + why)
@@ -305,7 +308,7 @@ def _wrap_get_action(cls):
         try:
             mask = kw.get("action_mask", a[0] if a else None)
             pre = {
-                "actor": copy.deepcopy(self.actor),
+                "actor": _snapshot_actor(self, rec),
                 "obs": copy.deepcopy(obs),
                 "mask": None if mask is None else np.array(mask, copy=True),
                 "S_before": self.sigma_inv.detach().clone(),
@@ -313,15 +316,51 @@ def _wrap_get_action(cls):
         except Exception as e:
             _monitor_problem(rec, "get_action.pre", e)
         action = orig(self, obs, *a, **kw)  # an exception of the code propagates unchanged to its caller
+        done = False
         if pre is not None:
             try:
-                _post_decision(self, pre, action, rec)
+                done = _post_decision(self, pre, action, rec)
             except Exception as e:
                 _monitor_problem(rec, "get_action.post", e)
+        if not done:
+            _shadow(self).lost = True  # the reference missed this decision: never judge the matrix against it
         return action
 
     get_action.__vf_orig__ = orig
     cls.get_action = get_action
+
+
+def _actor_fingerprint(actor):
+    """Exact fingerprint of everything the actor's function depends on: module objects and their modes, and the
+    bytes of every parameter and buffer."""
+    import hashlib
+
+    import torch
+
+    mods = tuple((id(m), type(m).__name__, m.training) for m in torch.nn.Module.modules(actor))
+    h = hashlib.blake2b(digest_size=16)
+    for k, v in actor.state_dict().items():
+        h.update(k.encode())
+        if isinstance(v, torch.Tensor):
+            h.update(str(tuple(v.shape)).encode())
+            h.update(v.detach().cpu().contiguous().numpy().tobytes())
+        else:
+            h.update(repr(v).encode())
+    return (id(actor), mods, h.hexdigest())
+
+
+def _snapshot_actor(agent, rec):
+    """Deep copy of the actor taken before the call.  The copy made before an earlier call is re-used only if the
+    actor is, bit for bit and module for module, still what was copied (get_action itself never changes weights)."""
+    sh = _shadow(agent)
+    fp = _actor_fingerprint(agent.actor)
+    if sh.snap is not None and sh.snap[0] == fp:
+        rec.hit("actor_snapshots_reused_bitwise_identical")
+        return sh.snap[1]
+    snap = copy.deepcopy(agent.actor)
+    sh.snap = (fp, snap)
+    rec.hit("actor_snapshots_taken")
+    return snap
 
 
 def _features(agent, actor_copy, obs):
@@ -354,7 +393,7 @@ def _post_decision(agent, pre, action, rec):
             rec.hit("masked_arm_chosen(info)")
     if not (0 <= a < g.shape[0]):
         rec.violate("chosen_arm", "returned_arm_out_of_range", "get_action", action=a, arms=int(g.shape[0]))
-        return
+        return False
     if sh.A is None or sh.A.shape[0] != g.shape[1]:
         # the agent's matrix was never seen initialised at this size: checked (and reported) by _check_state
         pass
@@ -364,6 +403,7 @@ def _post_decision(agent, pre, action, rec):
         if float(g[a] @ g[a]) > 0:
             rec.hit("nonzero_feature_updates")
     _check_state(agent, rec, "get_action", g_all=g, S_before=pre["S_before"])
+    return True
 
 
 # ------------------------------------------------------------------ the oracle
@@ -413,7 +453,7 @@ def _check_state(agent, rec, site, g_all=None, S_before=None):
     exp = getattr(agent, "exp_layer", None)
     if exp is not cur:
         out["stale"] = True
-        in_actor = any(m is exp for m in agent.actor.modules())
+        in_actor = any(m is exp for m in torch.nn.Module.modules(agent.actor))
         rec.violate(
             "exp_layer_identity",
             "exp_layer_is_not_current_output_layer",
@@ -463,7 +503,9 @@ def _check_state(agent, rec, site, g_all=None, S_before=None):
         )
 
     # ---- inverse of the regularised Gram matrix
-    if sh.A is None or sh.A.shape != S.shape:
+    if sh.lost:
+        rec.hit("inverse_checks_skipped_reference_lost")
+    elif sh.A is None or sh.A.shape != S.shape:
         rec.violate(
             "gram_inverse", "matrix_resized_without_observed_initialisation", site, algo=type(agent).__name__,
             matrix=list(S.shape), reference=None if sh.A is None else list(sh.A.shape),
@@ -732,9 +774,19 @@ def _run(case, rec):
 
 
 def run_case(case):
+    import time
+
+    import torch
+
     rec = Recorder()
     _install()
     _STATE.clear()
+    # harness hygiene: a per-case watchdog (SIGALRM) that fires inside a `with torch.no_grad()` exit of an earlier
+    # case of this shard can leave autograd switched off process-wide; every case starts from the default
+    if not torch.is_grad_enabled():
+        rec.hit("grad_mode_was_left_disabled_by_earlier_case(info)")
+        torch.set_grad_enabled(True)
+    t0 = time.time()
     _CUR["rec"] = rec
     try:
         _run(case, rec)
@@ -747,6 +799,11 @@ def run_case(case):
         _CUR["rec"] = None
         _STATE.clear()
     rec.nontrivial = rec.nontrivial or rec.counters.get("inverse_checks_after_5_decisions", 0) > 0
+    rec.extra["case_wall_s"] = round(time.time() - t0, 2)
+    if not torch.is_grad_enabled():
+        # nothing in a bandit's public API may leave autograd disabled (get_action needs it on the next call)
+        rec.violate("global_state", "autograd_left_disabled_after_case", str(_CUR.get("where")), algo=case.get("algo"))
+        torch.set_grad_enabled(True)
     return rec.result()
 
 
@@ -764,7 +821,9 @@ def finalize(ctx):
         if f:
             k = f[:90]
             failed[k] = failed.get(k, 0) + 1
+    walls = sorted(r.get("extra", {}).get("case_wall_s", 0.0) for r in res.values())
     return {
+        "case_wall_s_median_max": [walls[len(walls) // 2], walls[-1]] if walls else None,
         "max_residual_over_tolerance_best_reference": max(ratios) if ratios else None,
         "max_cond_of_reference_gram": max(conds) if conds else None,
         "ops_that_raised(info)": dict(sorted(failed.items(), key=lambda kv: -kv[1])[:8]),
